@@ -123,7 +123,9 @@ let run () = iter_lines (fun line ->
        (match utf8_decode eb with
         | None -> ()
         | Some et ->
-          (match decode et with
+          let body = escaped_body et in
+          if body <> et then bump "escaped:with-trailing-(no-eol)";
+          (match decode body with
            | None -> bump "escaped:malformed"; if res <> "err" then report "DIFF:escaped" "model: malformed escape" line
            | Some b ->
              let m = m_escaped b lb in
